@@ -82,6 +82,11 @@ func genDelegationExtension(ipv4Netblocks []net.IPNet) (*pkix.Extension, error) 
 
 func decodeIPV4AddressChoice(encodedBlock asn1.BitString) (net.IPNet, error) {
 	var encodedIP [4]byte
+	if encodedBlock.BitLength < 0 || encodedBlock.BitLength > 32 ||
+		len(encodedBlock.Bytes) > 4 ||
+		len(encodedBlock.Bytes) != (encodedBlock.BitLength+7)/8 {
+		return net.IPNet{}, errors.New("invalid ipv4 address prefix encoding")
+	}
 	for i := 0; (i * 8) < encodedBlock.BitLength; i++ {
 		encodedIP[i] = encodedBlock.Bytes[i]
 	}
